@@ -174,6 +174,15 @@ def check(ctx, triples, binary=None, tag=""):
         jin.append({"op": "c06", "disk": disk, "ids": ids_for_judge, "delay_ns": str(t["delay_s"] * NS),
                     "rer_ns": str(t["rer_s"] * NS), "slack_ns": str(2 * NS), "observed_ns": obs})
     verdicts = vlib.model(jin)
+    # a certificate name that differs from a configured one by letter case only: DNS names are compared without
+    # regard to case, so whether that certificate "lacks" the identifier is not settled by the property — the
+    # outcome is judged under both readings and must satisfy one of them
+    alt = [(n, dict(j, disk=dict(j["disk"], cert=dict(j["disk"]["cert"], sans=[x.lower() for x in j["disk"]["cert"]["sans"]]))))
+           for n, (t, j) in enumerate(zip(triples, jin)) if t["shape"] == "case-differs" and j["disk"]["cert"]]
+    for (n, _), v2 in zip(alt, vlib.model([j2 for _, j2 in alt]) if alt else []):
+        if not verdicts[n].get("holds") and v2.get("holds"):
+            verdicts[n] = v2
+            ctx.count(tag + "sans:case-differs:read-as-covered")
     for t, i, j, v in zip(triples, impl, jin, verdicts):
         canon = {k: t[k] for k in ("ids", "delay_s", "rer_s", "cert_dns", "cert_ips", "not_after_offset", "present")}
         ctx.case(canon, nontrivial=t["present"] == "both")
